@@ -88,3 +88,55 @@ Print Assumptions source_tie.
 Theorem source_tie_backends : forall W be, request_source_is_model (env_of W be) /\ response_source_is_model (env_of W be).
 Proof. intros W be. apply source_tie, backends_fwd. Qed.
 Print Assumptions source_tie_backends.
+
+(* ---- iter.rs: the methods of `Bytes`, translated on this run into ADDRESS-level code in which every
+   `*p`, `p.add(n)`, `p.sub(n)` and pointer subtraction is a checked operation (Generated/Iter.v, Ptr.v), are
+   simulated by the Cursor.v operations the model and the translated lib.rs functions are built from: at every
+   base address, for every buffer and every cursor state standing at a position of that buffer, a method whose
+   Cursor.v counterpart returns does so too, with the corresponding value and state, WITHOUT faulting -- every
+   byte it reads lies inside the caller's buffer, every slice it hands out is a sub-slice of it -- and it faults
+   where the counterpart's `unsafe` precondition fails.  (The model never faults: theorems above.) ---- *)
+From HV Require Import Ptr ImpLib.
+From HV.Generated Require Import Iter.
+From HV.Proofs Require Import TieIter.
+Theorem bytes_methods_refine_cursor : forall B data c, repr data c ->
+  i_peek (mkpmem B data) (pst_of B c) = PDone (hd_error (rest c)) (pst_of B c) /\
+  match next_opt c with
+  | Done o c' => i_next (mkpmem B data) (pst_of B c) = PDone o (pst_of B c') /\ repr data c'
+  | _ => False end /\
+  (forall n, match advance n c with
+             | Done _ c' => i_advance n (mkpmem B data) (pst_of B c) = PDone tt (pst_of B c') /\ repr data c'
+             | Fault _ => exists f, i_advance n (mkpmem B data) (pst_of B c) = PFault f
+             | _ => False end) /\
+  (forall n, match peek_ahead n c with
+             | Done o c' => i_peek_ahead n (mkpmem B data) (pst_of B c) = PDone o (pst_of B c) /\ c' = c
+             | Fault _ => exists f, i_peek_ahead n (mkpmem B data) (pst_of B c) = PFault f
+             | _ => False end) /\
+  (forall n, exists o, i_peek_n n (mkpmem B data) (pst_of B c) = PDone o (pst_of B c) /\
+                       option_map (fun pl => sl_bytes (read_slice (mkpmem B data) pl)) o = take n (rest c)) /\
+  match slice c with
+  | Done s c' => exists pl, i_slice (mkpmem B data) (pst_of B c) = PDone pl (pst_of B c') /\
+                            read_slice (mkpmem B data) pl = s /\ repr data c'
+  | _ => False end /\
+  (forall k, match slice_skip k c with
+             | Done s c' => exists pl, i_slice_skip k (mkpmem B data) (pst_of B c) = PDone pl (pst_of B c') /\
+                                       read_slice (mkpmem B data) pl = s /\ repr data c'
+             | Fault _ => exists f, i_slice_skip k (mkpmem B data) (pst_of B c) = PFault f
+             | _ => False end) /\
+  i_len (mkpmem B data) (pst_of B c) = PDone (length (rest c)) (pst_of B c).
+Proof.
+  intros B data c H. repeat split.
+  - apply tie_iter_peek; exact H.
+  - apply tie_iter_next; exact H.
+  - intros n. apply tie_iter_advance; exact H.
+  - intros n. apply tie_iter_peek_ahead; exact H.
+  - intros n. apply tie_iter_peek_n; exact H.
+  - apply tie_iter_slice; exact H.
+  - intros k. apply tie_iter_slice_skip; exact H.
+  - apply tie_iter_len.
+Qed.
+Print Assumptions bytes_methods_refine_cursor.
+Theorem bytes_new_is_cur_new : forall B buf,
+  i_new (B, length buf) (mkpmem B buf) (mkpst 0 0 0) = PDone tt (pst_of B (cur_new buf)) /\ repr buf (cur_new buf).
+Proof. exact tie_iter_new. Qed.
+Print Assumptions bytes_new_is_cur_new.
